@@ -31,6 +31,7 @@ import JanetModel.Lib.MiscC2Proofs
 import JanetModel.Lib.Boot9Proofs
 import JanetModel.Lib.Boot10Proofs
 import JanetModel.Lib.Boot11Proofs
+import JanetModel.Lib.Boot12Proofs
 import JanetModel.Lib.FormatCProofs
 namespace JanetModel.Props.C17
 open JanetModel.Lib JanetModel.Gen.Lib
@@ -617,6 +618,36 @@ theorem boot_map_any_arity {α β γ σ : Type} (agg : σ → γ → σ) (f : α
 example : Boot.mapGen (fun (s : List Nat) v => s ++ [v]) (fun (x : Nat) row => x + row.foldl (· + ·) 0) [] [1, 2, 3]
     [[10, 20, 30], [100, 200], [1000, 2000, 3000], [0, 0, 0, 0]] = .ok [1111, 2222] ∧
     Boot.mapN (fun (s : List Nat) v => s ++ v) (fun (x : Nat) row => x :: row) [] [1, 2] [[3, 4], [5, 6, 7]] = .ok [1, 3, 5, 2, 4, 6] := by decide
+
+/-- ★★ session 4d: boot.janet `some` and `all`, i.e. map-template with an aggregator that itself executes `(break)`
+    (`:some ~(if (def y ,val) (do (set ,res y) (break)))`, `:all ~(if (def y ,val) nil (do (set ,res y) (break)))`), for ANY
+    number of sequences — branch `0`, the `map-n` expansion for every `n`, the general branch (`iter-keys` / `call-buffer`,
+    `forv`, `done` flag) and the `case ninds` dispatch between them.  `truthy` is janet truthiness of a result, `nilv` /
+    `truev` the initial `(var res nil)` / `(var res true)`.  Every branch with every breaking aggregator is the stopping
+    fold over the row results `(f x_j ;row_j)`, `j` below the length of the shortest sequence; hence `some` returns the
+    first truthy result and nil when there is none, `all` the first falsey result and true when there is none, an empty
+    sequence gives nil / true, no `(in …)` is out of range and the loops terminate (no `.panic` / `.ub` outcome). -/
+theorem boot_some_all {α β γ σ : Type} (truthy : γ → Bool) (nilv truev : γ) (pred : α → List β → γ) (ind : List α)
+    (inds : List (List β)) (agg : σ → γ → σ × Bool) (f : α → List β → γ) (init : σ) :
+    Boot.someOf truthy nilv pred ind inds = .ok (((Boot.rowVals pred ind inds).find? truthy).getD nilv) ∧
+    Boot.allOf truthy truev pred ind inds = .ok (((Boot.rowVals pred ind inds).find? (fun v => !truthy v)).getD truev) ∧
+    Boot.mapNB agg f init ind inds = .ok (Boot.foldB agg init (Boot.rowVals f ind inds)) ∧
+    Boot.mapGenB agg f init ind inds = .ok (Boot.foldB agg init (Boot.rowVals f ind inds)) ∧
+    Boot.mapTemplateB agg f init ind inds = .ok (Boot.foldB agg init (Boot.rowVals f ind inds)) ∧
+    (Boot.rowVals f ind inds).length ≤ ind.length ∧ (∀ c ∈ inds, (Boot.rowVals f ind inds).length ≤ c.length) :=
+  ⟨Boot.someOf_eq_spec truthy nilv pred ind inds, Boot.allOf_eq_spec truthy truev pred ind inds,
+   Boot.mapNB_eq_spec agg f init ind inds, Boot.mapGenB_eq_spec agg f init ind inds,
+   Boot.mapTemplateB_eq_spec agg f init ind inds, Boot.rowVals_length_le f ind inds, Boot.rowVals_length_le_mem f ind inds⟩
+
+example : Boot.someOf (fun (v : Option Nat) => v.isSome) none
+      (fun (x : Nat) row => let t := row.foldl (· + ·) x; if t > 2000 then some t else none)
+      [1, 2, 3, 4] [[10, 20, 30], [100, 200, 300], [1000, 2000, 3000], [0, 0, 0, 0], [0, 0, 0]] = .ok (some 2222) ∧
+    Boot.allOf (fun (v : Bool) => v) true (fun (x : Nat) row => decide (row.foldl (· + ·) x < 2000))
+      [1, 2, 3, 4] [[10, 20, 30], [100, 200, 300], [1000, 2000, 3000], [0, 0, 0, 0]] = .ok false ∧
+    Boot.allOf (fun (v : Bool) => v) true (fun (x : Nat) row => decide (row.foldl (· + ·) x < 2000))
+      [1, 2, 3, 4] [[10, 20, 30], [100], [1000, 2000, 3000], [0, 0, 0, 0]] = .ok true ∧
+    Boot.someOf (fun (v : Option Nat) => v.isSome) none (fun (x : Nat) (_ : List Nat) => if x > 2 then some x else none)
+      [1, 2, 3, 4] [] = .ok (some 3) := by decide
 
 /-! ### ★★ session 4: the directive scanner of string/format / buffer/format -/
 
